@@ -387,12 +387,17 @@ static inline bool vf_tree_equal(const vf_doc *a, const vf_doc *b)
  * objects {"name":value,...}, arrays [v,...], exactly one comma between
  * siblings, integers decimal, doubles printf %f, booleans true/false, bytes
  * "0x<hex>", names and strings quoted verbatim up to a 0x00 byte. */
+/* optional: offsets in the rendering where a token's text begins or ends (capacity boundaries of interest) */
+static size_t *vf_render_marks; static int vf_render_nmarks, vf_render_maxmarks;
+static inline void vf_render_mark(const vf_str *o) { if (vf_render_marks && vf_render_nmarks < vf_render_maxmarks) vf_render_marks[vf_render_nmarks++] = o->n; }
 static void vf_render_node(const vf_doc *d, int id, vf_str *o)
 {
     const vf_node *x = &d->n[id];
+    vf_render_mark(o);
     if (x->name_off >= 0) {
         size_t l = strnlen((const char *) d->bytes + x->name_off, (size_t) x->name_len);
         vf_str_printf(o, "\"%.*s\":", (int) l, (const char *) d->bytes + x->name_off);
+        vf_render_mark(o);
     }
     switch (x->kind) {
     case VK_OBJ: case VK_ARR:
@@ -418,6 +423,7 @@ static void vf_render_node(const vf_doc *d, int id, vf_str *o)
         break;
     default: break;
     }
+    vf_render_mark(o);
 }
 static inline void vf_ref_render(const vf_doc *d, vf_str *o) { vf_str_reset(o); vf_render_node(d, 0, o); }
 
